@@ -90,9 +90,13 @@ fn part_api(bytes: &[u8], stats: &mut Stats) -> Verdict {
     if s.chance(40) {
         if let Some(q) = look_alike(&mut s, &p) {
             stats.class("look_alike_judged_right_after_its_original");
-            let r = judge_api(&q, stats);
+            let seq = |mut f: Failure| {
+                f.detail["replay"] = json!({"sequence": [eng::fen(&p), eng::fen(&q), eng::fen(&p)]});
+                f
+            };
+            let r = judge_api(&q, stats).map_err(seq);
             // and the original once more
-            return r.and_then(|_| judge_api(&p, stats));
+            return r.and_then(|_| judge_api(&p, stats).map_err(seq));
         }
     }
     Ok(())
@@ -397,8 +401,13 @@ fn rights_twins(p: &Pos, stats: &mut Stats) -> Verdict {
             continue;
         }
         stats.class("same_placement_other_castling_rights_judged_on_the_same_generator");
-        judge_api(&q, stats)?;
-        judge_api(p, stats)?;
+        let seq = |mut f: Failure| {
+            // the failing answer may depend on what the generator was asked just before
+            f.detail["replay"] = json!({"sequence": [eng::fen(p), eng::fen(&q), eng::fen(p)]});
+            f
+        };
+        judge_api(&q, stats).map_err(seq)?;
+        judge_api(p, stats).map_err(seq)?;
     }
     Ok(())
 }
@@ -406,6 +415,17 @@ fn rights_twins(p: &Pos, stats: &mut Stats) -> Verdict {
 pub fn replay(part: &str, bytes: &[u8], case: &Value, stats: &mut Stats) -> Verdict {
     // structural replay: the node itself through the public API (when its mover is not in check),
     // and the recorded search from its root
+    if let Some(sq) = case.get("replay").and_then(|r| r.get("sequence")).and_then(|x| x.as_array()) {
+        // positions asked one after the other on the same generator
+        for f in sq.iter().filter_map(|x| x.as_str()) {
+            if let Some(p) = eng::pos_from_saved_fen(f) {
+                if !p.in_check() {
+                    judge_api(&p, stats)?;
+                }
+            }
+        }
+        return Ok(());
+    }
     if part != "deep" {
         if let (Some(root), Some(d)) = (case.get("root").and_then(|x| x.as_str()), case.get("depth").and_then(|x| x.as_u64())) {
             if let Some(p) = eng::pos_from_saved_fen(root) {
